@@ -403,6 +403,10 @@ func CodeText(g *Grammar, e *Expr, o PrintOpts) string {
 	if g.HasState || g.StateIn {
 		st = "map[string]any(" + c + ".state)"
 	}
+	if g.IndirectState && g.HasState && e.K != KState {
+		// (a block need not mention the store to use it: it may hand its receiver to a helper)
+		st = "verifStateOf(" + c + ")"
+	}
 	switch e.K {
 	case KAction:
 		return "{ return vrt.Act(" + st + ", " + ctx + ") }"
